@@ -307,6 +307,8 @@ func judge(e *engine, log []Rec, res *Result, wedged, readersFinished bool, outs
 		}
 	}
 
+	judgeRetry(cs, log, add)
+
 	// ---- end-of-run accounting ----
 	accepted, committed, dropped, unaccounted := 0, 0, 0, 0
 	var firstUn *evState
@@ -364,6 +366,9 @@ func judge(e *engine, log []Rec, res *Result, wedged, readersFinished bool, outs
 		if firstUn != nil {
 			where = firstUn.where()
 		}
+		if res.Stats["heartbeat_stalled"] == 1 {
+			where = "streamer-heartbeat-stalled"
+		}
 		add("C04", "wedge:"+where, fmt.Sprintf("%d events still in use and none was finalized during %d streamer heartbeat ticks after the last progress (readers finished=%v); first unfinished event %s (%s)", outstandingEnd, patience, readersFinished, firstUnID, where),
 			map[string]any{"dump": res.Dump, "streams": res.StreamState})
 		if outstandingEnd > 0 && readersFinished {
@@ -389,4 +394,208 @@ func judge(e *engine, log []Rec, res *Result, wedged, readersFinished bool, outs
 		fmt.Sprintf("pool=%s cap=%d procs=%d w=%d c=%d plain=%v retry=%d fail=%s dlq=%v chain=%s", cs.Pool, cs.Capacity, cs.Procs, cs.Out.Workers, cs.Out.Count, cs.Out.Plain, cs.Out.Retry, strings.SplitN(cs.Out.FailPlan, ":", 2)[0], cs.DLQ != nil, chain),
 		has("completion_inversions"), has("drops_overtaking_inflight"), has("timeouts_injected"), has("pool_waiters_seen"), has("dropped"),
 	}, "|")
+}
+
+// judgeRetry is the C09 oracle: retry counts, growing pauses (lower envelope),
+// one-way routing of an exhausted batch.
+func judgeRetry(cs Case, log []Rec, add func(prop, sig, what string, w any)) {
+	if cs.Out.Plain {
+		return
+	}
+	type att struct {
+		callT, retT   int64
+		callW, retW   int64
+		ok, returned  bool
+		ids           []string
+	}
+	batches := map[int64][]*att{}
+	gaveUp := map[int64]Rec{}
+	giveupOf := map[string]int{} // id -> how many give-ups named it
+	var order []int64
+	dlqOut := map[string]int{}
+	dlqAck := map[string]int64{}
+	commitT := map[string]int64{}
+	commits := map[string]int{}
+	pendingDLQ := map[int64][]string{}
+	lastMainBatch := int64(-1)
+	idOf := func(src uint64, off int64) string { return fmt.Sprintf("%d/%d", src, off) }
+	_ = idOf
+	for _, x := range log {
+		switch x.K {
+		case "send.call":
+			if x.Out == "main" {
+				if _, ok := batches[x.Batch]; !ok {
+					order = append(order, x.Batch)
+				}
+				batches[x.Batch] = append(batches[x.Batch], &att{callT: x.T, callW: x.WallUs, ids: x.IDs})
+				lastMainBatch = x.Batch
+			} else {
+				pendingDLQ[x.Batch] = x.IDs
+			}
+		case "send.ret":
+			if x.Out == "main" {
+				l := batches[x.Batch]
+				if len(l) > 0 {
+					a := l[len(l)-1]
+					a.retT, a.retW, a.ok, a.returned = x.T, x.WallUs, x.OK, true
+				}
+			} else if x.OK {
+				for _, id := range pendingDLQ[x.Batch] {
+					if _, seen := dlqAck[id]; !seen {
+						dlqAck[id] = x.T
+					}
+				}
+			}
+		case "giveup":
+			if x.Out == "main" {
+				// the give-up belongs to the batch whose attempt failed last before it
+				best := int64(-1)
+				for seq, l := range batches {
+					a := l[len(l)-1]
+					if a.returned && !a.ok && a.retT < x.T && sameSet(a.ids, x.IDs) {
+						if _, dup := gaveUp[seq]; !dup && (best < 0 || seq < best) {
+							best = seq
+						}
+					}
+				}
+				if best >= 0 {
+					gaveUp[best] = x
+				}
+				for _, id := range x.IDs {
+					giveupOf[id]++
+				}
+			}
+		case "dlq.out":
+			dlqOut[x.ID]++
+		}
+	}
+	_ = lastMainBatch
+	// commits by id need the engine's offset table: rebuild from in.call records
+	byOff := map[string]string{}
+	kinds := map[string]string{}
+	for _, x := range log {
+		if x.K == "in.call" {
+			byOff[fmt.Sprintf("%d/%d", x.Src, x.Off)] = x.ID
+		}
+	}
+	for _, x := range log {
+		if x.K == "commit" {
+			id := byOff[fmt.Sprintf("%d/%d", x.Src, x.Off)]
+			commits[id]++
+			kinds[id] = x.Kind
+			if _, ok := commitT[id]; !ok {
+				commitT[id] = x.T
+			}
+		}
+	}
+	strip := func(id string) string { return strings.TrimPrefix(id, "P:") }
+	for _, seq := range order {
+		l := batches[seq]
+		fails := 0
+		for _, a := range l {
+			if a.returned && !a.ok {
+				fails++
+			}
+		}
+		last := l[len(l)-1]
+		gu, exhausted := gaveUp[seq]
+		if exhausted {
+			if cs.Out.Retry < 0 {
+				add("C09", "gave-up-with-negative-retry", fmt.Sprintf("batch %d was given up after %d failed sends although retry=%d means retry forever", seq, fails, cs.Out.Retry), gu)
+			} else if fails < cs.Out.Retry+1 {
+				add("C09", "gave-up-too-early", fmt.Sprintf("batch %d was given up after %d failed sends; configured retries %d require at least %d", seq, fails, cs.Out.Retry, cs.Out.Retry+1), gu)
+			}
+		}
+		// growing pauses: lower envelope 0.5*MinRetention*Multiplier^i (capped at 60 s)
+		for i := 0; i+1 < len(l); i++ {
+			if !l[i].returned {
+				continue
+			}
+			want := 0.5 * float64(cs.Out.RetentMs) * 1000
+			m := cs.Out.Mult
+			if m == 0 {
+				m = 2
+			}
+			for k := 0; k < i; k++ {
+				want *= m
+			}
+			if want > 60e6*0.5 {
+				want = 60e6 * 0.5
+			}
+			got := float64(l[i+1].callW - l[i].retW)
+			if got < want*0.98 {
+				add("C09", "retry-pause-too-short", fmt.Sprintf("batch %d: pause %d before attempt %d was %.1f ms, the randomised exponential back-off (min retention %d ms, multiplier %.1f) allows no less than %.1f ms", seq, i, i+1, got/1000, cs.Out.RetentMs, m, want/1000), nil)
+				break
+			}
+		}
+		// no commit while the batch is neither acknowledged nor given up
+		endT := int64(-1)
+		switch {
+		case last.returned && last.ok:
+			endT = last.retT
+		case exhausted:
+			endT = gu.T
+		}
+		for _, id := range last.ids {
+			sid := strip(id)
+			if strings.Contains(sid, ".c") {
+				continue // children are never committed
+			}
+			ct, committed := commitT[sid]
+			if !committed {
+				continue
+			}
+			if endT < 0 {
+				add("C09", "commit-while-retries-pending", fmt.Sprintf("event %s of batch %d was committed although the last send of the batch failed and it was neither retried again nor given up (%d failed sends)", sid, seq, fails), nil)
+			} else if ct < endT && !(exhausted && dlqAck[id] > 0) {
+				add("C09", "commit-before-final-send", fmt.Sprintf("event %s of batch %d was committed before the final send returned / gave up", sid, seq), nil)
+			}
+		}
+		if !exhausted {
+			continue
+		}
+		// one-way routing
+		for _, id := range gu.IDs {
+			sid := strip(id)
+			isKid := strings.Contains(sid, ".c")
+			if gu.OK { // dead queue configured
+				if dlqOut[id] != 1 {
+					add("C09", fmt.Sprintf("dead-queue-handover-count=%d", dlqOut[id]), fmt.Sprintf("event %s of the exhausted batch %d was handed to the dead-queue output %d times (want exactly once)", id, seq, dlqOut[id]), gu)
+				}
+				if !isKid {
+					if ack, ok := dlqAck[id]; ok {
+						if ct, c := commitT[sid]; c && ct < ack {
+							add("C09", "committed-before-dead-queue-ack", fmt.Sprintf("event %s was routed to the dead queue but committed before the dead queue acknowledged it (committed by the main output)", sid), gu)
+						}
+					} else if !strings.HasPrefix(id, "P:") {
+						if _, c := commitT[sid]; c {
+							add("C09", "committed-without-dead-queue-ack", fmt.Sprintf("event %s was routed to the dead queue and committed although the dead queue never acknowledged it", sid), gu)
+						}
+					}
+				}
+			}
+			if giveupOf[id] > 1 {
+				add("C09", "error-callback-twice", fmt.Sprintf("event %s was reported through the error callback %d times", id, giveupOf[id]), gu)
+			}
+			if !isKid && commits[sid] > 1 {
+				add("C09", "exhausted-event-committed-twice", fmt.Sprintf("event %s of an exhausted batch was committed %d times", sid, commits[sid]), gu)
+			}
+		}
+	}
+}
+
+func sameSet(a, b []string) bool {
+	if len(a) != len(b) {
+		return false
+	}
+	x := append([]string(nil), a...)
+	y := append([]string(nil), b...)
+	sort.Strings(x)
+	sort.Strings(y)
+	for i := range x {
+		if x[i] != y[i] {
+			return false
+		}
+	}
+	return true
 }
